@@ -20,7 +20,7 @@ Go(s) == stage' = s /\ UNCHANGED <<facts, result>>
 ParseFlags ==        \* builder_from_flags (clap, RustTarget::from_str)
   /\ stage = "flags"
   /\ IF facts.flags = "invalid" THEN Finish("flags_err")
-     ELSE IF facts.flags = "nightly0" THEN Finish(IF Variant = "code" THEN "panic" ELSE "flags_err")
+     ELSE IF facts.flags = "nightly0" THEN Finish(IF Variant = "nightly0Panics" THEN "panic" ELSE "flags_err")
      ELSE Go("edition")
 CheckEdition ==      \* Builder::generate: edition.is_available(rust_target)
   /\ stage = "edition"
